@@ -401,7 +401,7 @@ func init() {
 				continue
 			}
 			docs := [][]byte{b}
-			for _, m := range mutations(inst) {
+			for _, m := range append(mutations(inst), renames(inst, goFieldNames(t, map[reflect.Type]bool{}))...) {
 				mb, err := json.Marshal(m)
 				if err == nil {
 					docs = append(docs, mb)
@@ -580,6 +580,83 @@ func mutations(v any) []any {
 	walk(v, func(n any) any { return n })
 	if len(out) > 400 {
 		out = out[:400]
+	}
+	return out
+}
+
+// goFieldNames collects the Go names of the struct fields that occur anywhere in t.
+func goFieldNames(t reflect.Type, seen map[reflect.Type]bool) []string {
+	if seen[t] {
+		return nil
+	}
+	seen[t] = true
+	var out []string
+	switch t.Kind() {
+	case reflect.Pointer, reflect.Slice, reflect.Array, reflect.Map:
+		out = append(out, goFieldNames(t.Elem(), seen)...)
+	case reflect.Struct:
+		for i := 0; i < t.NumField(); i++ {
+			f := t.Field(i)
+			out = append(out, f.Name)
+			out = append(out, goFieldNames(f.Type, seen)...)
+		}
+	}
+	return out
+}
+
+// renames: every object key replaced, one at a time, by another spelling a careless mapping between Go names and JSON names could
+// confuse it with: the Go field names of the type, the key with blanks removed / replaced, other letter case.
+func renames(v any, names []string) []any {
+	var out []any
+	var walk func(cur any, rebuild func(any) any)
+	walk = func(cur any, rebuild func(any) any) {
+		switch c := cur.(type) {
+		case []any:
+			for i := range c {
+				i := i
+				walk(c[i], func(n any) any {
+					cp := append([]any{}, c...)
+					cp[i] = n
+					return rebuild(cp)
+				})
+			}
+		case map[string]any:
+			for k := range c {
+				k := k
+				alts := append([]string{strings.ReplaceAll(k, " ", ""), strings.ReplaceAll(k, " ", "_"), strings.ToUpper(k), strings.Title(k),
+					strings.ReplaceAll(strings.Title(k), " ", ""), strings.TrimSpace(k), k + " "}, names...)
+				done := map[string]bool{k: true}
+				for _, alt := range alts {
+					if done[alt] {
+						continue
+					}
+					done[alt] = true
+					if _, clash := c[alt]; clash {
+						continue
+					}
+					cp := map[string]any{}
+					for kk, vv := range c {
+						if kk != k {
+							cp[kk] = vv
+						}
+					}
+					cp[alt] = c[k]
+					out = append(out, rebuild(cp))
+				}
+				walk(c[k], func(n any) any {
+					cp := map[string]any{}
+					for kk, vv := range c {
+						cp[kk] = vv
+					}
+					cp[k] = n
+					return rebuild(cp)
+				})
+			}
+		}
+	}
+	walk(v, func(n any) any { return n })
+	if len(out) > 300 {
+		out = out[:300]
 	}
 	return out
 }
